@@ -2,6 +2,7 @@ package props
 
 import (
 	"bytes"
+	"encoding/json"
 	"fmt"
 	"regexp"
 	"strings"
@@ -521,7 +522,149 @@ func TestC05Real(t *testing.T) {
 			}
 		}
 		hx.Sample(func() any { return "real file " + path + " under 3 re-encodings" })
+		// mutated variants (members deleted, array entries dropped / duplicated / swapped, references retargeted
+		// to other declared ids): each is a new document for every clause
+		nmut := 12
+		if hx.Thorough() {
+			nmut = 80
+		}
+		if len(data) > 60<<10 {
+			nmut = nmut/4 + 1
+		}
+		for m := 0; m < nmut; m++ {
+			hx.Eval()
+			if msg := c05RealMutated(data, hx.EnvInt("VERIF_SEED", 1)*1009+fi*53+m); msg != "" {
+				hx.RecordFailure("C05Real", fmt.Sprintf("mutation %d of %s: %s", m, path, msg), map[string]any{"file": path, "mutation": m})
+				t.Fatalf("mutation %d of %s: %s", m, path, msg)
+			}
+		}
 	}
+}
+
+// c05RealMutated derives one mutated document from a real file and applies the C05 clauses to it; returns a
+// description of the violation or "".
+func c05RealMutated(data []byte, seed int) string {
+	var enc1, enc2 []byte
+	mutated := rapid.Custom(func(rt *rapid.T) []byte {
+		var v any
+		if err := json.Unmarshal(data, &v); err != nil {
+			return nil
+		}
+		v = mutateJSON(rt, v, rapid.IntRange(1, 4).Draw(rt, "k"))
+		b, _ := json.Marshal(v)
+		if jv, err := hx.ParseJV(b); err == nil {
+			enc1, _ = reencode(rt, jv, "m1")
+			enc2, _ = reencode(rt, jv, "m2")
+		}
+		return b
+	}).Example(seed)
+	if mutated == nil || enc1 == nil {
+		return ""
+	}
+	doc, err := parseAuto(mutated)
+	if err != nil {
+		hx.Class("real_mutated:rejected")
+		return ""
+	}
+	hx.Class("real_mutated:parsed")
+	if strings.Contains(doc.Metadata.GetId(), "/protobom-") {
+		hx.Excluded("real_spdx_without_namespace(random document id by design)")
+		return ""
+	}
+	for _, n := range doc.NodeList.GetNodes() {
+		if n.GetId() == "" {
+			return "parsed node with an empty identifier"
+		}
+	}
+	if refsResolve(mutated) {
+		hx.Class("real_mutated:references_resolve")
+		nl := doc.NodeList
+		if err := hx.WellFormed(&sbom.NodeList{Nodes: dedupNodes(nl.Nodes), Edges: nl.Edges, RootElements: nl.RootElements}, false); err != nil {
+			return fmt.Sprintf("every reference of the input resolves, yet the parsed graph is not closed: %v", err)
+		}
+	}
+	key := hx.RefKey(doc, false)
+	if d2, err := parseAuto(mutated); err != nil || hx.RefKey(d2, false) != key {
+		return fmt.Sprintf("parsing the same bytes twice gives different results (err=%v)", err)
+	}
+	for i, enc := range [][]byte{enc1, enc2} {
+		d, err := parseAuto(enc)
+		if err != nil {
+			return fmt.Sprintf("re-encoding %d is rejected although the document itself parses: %v", i, err)
+		}
+		if k := hx.RefKey(d, false); k != key {
+			return fmt.Sprintf("re-encoding %d parses differently (first difference near %q)", i, firstDiff(key, k))
+		}
+	}
+	hx.NonTrivial(hx.Digest("realmut", string(mutated)))
+	return ""
+}
+
+// refsResolve: every reference of the document (CycloneDX dependencies; SPDX relationships, documentDescribes,
+// hasFiles) names an element the document declares, and the SPDX document element occurs only as the source of
+// DESCRIBES (KF-04). Conservative: anything unexpected answers false (then closedness is not asserted).
+func refsResolve(data []byte) bool {
+	var top map[string]any
+	if json.Unmarshal(data, &top) != nil {
+		return false
+	}
+	declared := map[string]bool{}
+	var collect func(v any)
+	collect = func(v any) {
+		switch x := v.(type) {
+		case map[string]any:
+			for k, c := range x {
+				if s, ok := c.(string); ok && (k == "bom-ref" || k == "SPDXID") {
+					declared[s] = true
+				}
+				collect(c)
+			}
+		case []any:
+			for _, e := range x {
+				collect(e)
+			}
+		}
+	}
+	collect(top)
+	str := func(v any) (string, bool) { s, ok := v.(string); return s, ok }
+	for _, d := range jsonArr(top["dependencies"]) {
+		dm := jsonObj(d)
+		if r, ok := str(dm["ref"]); !ok || !declared[r] {
+			return false
+		}
+		for _, on := range jsonArr(dm["dependsOn"]) {
+			if r, ok := str(on); !ok || !declared[r] {
+				return false
+			}
+		}
+	}
+	for _, r := range jsonArr(top["relationships"]) {
+		rm := jsonObj(r)
+		a, ok1 := str(rm["spdxElementId"])
+		b, ok2 := str(rm["relatedSpdxElement"])
+		ty, _ := str(rm["relationshipType"])
+		if !ok1 || !ok2 || !declared[a] || !declared[b] {
+			return false
+		}
+		if b == "SPDXRef-DOCUMENT" || (a == "SPDXRef-DOCUMENT" && ty != "DESCRIBES") {
+			return false
+		}
+	}
+	for _, r := range jsonArr(top["documentDescribes"]) {
+		if s, ok := str(r); !ok || !declared[s] || s == "SPDXRef-DOCUMENT" {
+			return false
+		}
+	}
+	for _, key := range []string{"packages", "files"} {
+		for _, p := range jsonArr(top[key]) {
+			for _, f := range jsonArr(jsonObj(p)["hasFiles"]) {
+				if s, ok := str(f); !ok || !declared[s] || s == "SPDXRef-DOCUMENT" {
+					return false
+				}
+			}
+		}
+	}
+	return true
 }
 
 func firstDiff(a, b string) string {
